@@ -42,7 +42,10 @@ ChecksBig(e) == {
   <<"encode-bytes", e.encerr = "none" /\ BigSide(e.enc, e)>>,
   <<"stream-writer-bytes", e.swerr = "none" /\ BigSide(e.sw, e)>>,
   <<"decode-roundtrip", BigDec(e.dec, e)>>,
-  <<"stream-decode-roundtrip", BigDec(e.sdec, e)>> }
+  <<"stream-decode-roundtrip", BigDec(e.sdec, e)>>,
+  \* the string entry points of the streaming API (WriteString / ReadString) carry the same bytes
+  <<"stream-writer-string-bytes", Has(e, "sws") => (e.swserr = "none" /\ BigSide(e.sws, e))>>,
+  <<"stream-reader-string-roundtrip", Has(e, "sdecs") => BigDec(e.sdecs, e)>> }
 
 Fails(e) == Failed(IF e.op = "c02big" THEN ChecksBig(e) ELSE ChecksSmall(e))
 
